@@ -36,6 +36,7 @@ CONFIGS_QUICK = [
 	dict(path='fast', payload='medium', comp='none'), dict(path='persig', payload='medium', comp='none'),
 ]
 CONFIGS_QUICK.append(dict(path='cli-create', payload='3-fasta-files', comp='none'))
+CONFIGS_QUICK.append(dict(path='from-hdf5', payload='small', comp='none'))       # the source is itself an open signature file (re-writing / re-compressing one)
 CONFIGS_THOROUGH = CONFIGS_QUICK + [
 	dict(path='fast', payload='big', comp='none'), dict(path='persig', payload='big', comp='none'),
 	dict(path='fast', payload='big', comp='gzip'), dict(path='persig', payload='big', comp='gzip'),
@@ -43,6 +44,7 @@ CONFIGS_THOROUGH = CONFIGS_QUICK + [
 	dict(path='persig-bare', payload='small', comp='none'), dict(path='persig-bare', payload='medium', comp='gzip'),
 	dict(path='fast', payload='empty-sigs', comp='none'), dict(path='persig', payload='empty-sigs', comp='none'),
 	dict(path='annot-array', payload='small', comp='none'), dict(path='annot-array', payload='medium', comp='gzip'),
+	dict(path='from-hdf5', payload='medium', comp='gzip'),
 ]
 
 
@@ -90,7 +92,7 @@ def payload(cfg):
 		ids, meta = list(range(len(arrs))), SignaturesMeta()
 	elif cfg['path'] == 'annot-array':
 		obj = AnnotatedSignatures(SignatureArray(arrs, ks, dtype=np.dtype('u4')), ids, meta)
-	elif cfg['path'] == 'persig':
+	elif cfg['path'] in ('persig', 'from-hdf5'):
 		obj = AnnotatedSignatures(SignatureList(arrs, ks, dtype=np.dtype('u4')), ids, meta)
 	else:
 		obj = SignatureList(arrs, ks, dtype=np.dtype('u4'))
@@ -179,6 +181,12 @@ def child_main(argv):
 		write = lambda: __import__('gambit.cli', fromlist=['cli']).cli.main(
 			['signatures', 'create', '--no-progress', '-c', '1', '-k', '11', '-p', 'ATGAC', '-o', path] + cfg['files'], standalone_mode=False)
 		obj = None
+	elif cfg['path'] == 'from-hdf5':
+		from gambit.sigs.base import load_signatures
+		srcp = os.path.join(os.path.dirname(path), 'src-of-' + os.path.basename(path)[:-3] + '.h5')
+		dump_signatures(srcp, payload(cfg)[0])           # written completely before any fault is armed
+		obj = load_signatures(srcp)
+		write = lambda: dump_signatures(path, obj, **write_kw(cfg))
 	else:
 		obj = payload(cfg)[0]
 		write = lambda: dump_signatures(path, obj, **write_kw(cfg))
@@ -380,29 +388,33 @@ def t_source_faults(comp, only=None):
 		if r.returncode != 0 or v != 'equal':
 			sh.violation('complete-file-not-equal', dict(cfg=cfg0, level='source', point='complete'), 'equal', f'{v}: {det} {r.stderr[-300:]}')
 			return sh
-		for kind in FAULT_KINDS:
-			for i in range(len(arrs)):
-				if only is not None and only != [kind, i]:
-					continue
-				cfg = dict(cfg0, fault=[kind, i])
-				p = os.path.join(d, f'f-{kind}-{i}.gs')
-				r = run_child(cfg, p, 'none', -1)
-				v, det = judge(p, (ks, arrs, ids, meta))
-				size = os.path.getsize(p) if os.path.exists(p) else -1
-				sh.evals += 1
-				case = dict(cfg=cfg, level='source', point=i)
-				if v == 'DIFFERENT':
-					sh.violation('partial-file-loads-as-different-collection', case, 'rejected or equal', dict(loaded=det, writer_exit=r.returncode))
-					continue
-				if v == 'equal':
-					raise HarnessError(f'fault {kind}@{i} was not injected')
-				if size > 0:
-					sh.nontrivial += 1
-				sh.count('source_fault_points')
-				sh.count('source_fault_writer_' + ('died' if r.returncode != 0 else 'returned_normally'))
-				sh.outcome(['source', kind, v, det])
-				if os.path.exists(p):
-					os.unlink(p)
+		todo = [(kind, i) for kind in FAULT_KINDS for i in range(len(arrs)) if only is None or only == [kind, i]]
+
+		def one(ki):
+			kind, i = ki
+			cfg = dict(cfg0, fault=[kind, i])
+			p = os.path.join(d, f'f-{kind}-{i}.gs')
+			r = run_child(cfg, p, 'none', -1)
+			v, det = judge(p, (ks, arrs, ids, meta))
+			size = os.path.getsize(p) if os.path.exists(p) else -1
+			if os.path.exists(p):
+				os.unlink(p)
+			return kind, i, cfg, r.returncode, v, det, size
+		with ThreadPoolExecutor(max_workers=6) as ex:
+			results = list(ex.map(one, todo))
+		for kind, i, cfg, rc, v, det, size in results:
+			sh.evals += 1
+			case = dict(cfg=cfg, level='source', point=i)
+			if v == 'DIFFERENT':
+				sh.violation('partial-file-loads-as-different-collection', case, 'rejected or equal', dict(loaded=det, writer_exit=rc))
+				continue
+			if v == 'equal':
+				raise HarnessError(f'fault {kind}@{i} was not injected')
+			if size > 0:
+				sh.nontrivial += 1
+			sh.count('source_fault_points')
+			sh.count('source_fault_writer_' + ('died' if rc != 0 else 'returned_normally'))
+			sh.outcome(['source', kind, v, det])
 	sh.extra = dict(cfg=cfg0, level='source', death='source-exception', points=len(FAULT_KINDS) * len(arrs), verdicts=[])
 	sh.sample(dict(family='source-faults', comp=comp, kinds=FAULT_KINDS, signatures=len(arrs)))
 	return sh
